@@ -44,6 +44,10 @@ func setupHelpers() error {
 			return err
 		}
 	}
+	// a helper that is there but cannot be started (its interpreter does not exist): not a missing helper
+	if err := os.WriteFile(filepath.Join(d, "docker-credential-vfbroken"), []byte("#!/nonexistent/interpreter\n"), 0o755); err != nil {
+		return err
+	}
 	return os.Setenv("PATH", d+string(os.PathListSeparator)+os.Getenv("PATH"))
 }
 
@@ -67,6 +71,8 @@ func (s ExecScript) want(host string) (ociauth.ConfigEntry, string) {
 			return ociauth.ConfigEntry{}, "helper-missing"
 		}
 		return ociauth.ConfigEntry{}, "" // a missing default store falls back to the (empty) table
+	case h == "vfbroken":
+		return ociauth.ConfigEntry{}, "cannot-start" // present but unstartable: an error, per-host or default
 	case strings.HasPrefix(host, "cred"):
 		return ociauth.ConfigEntry{Username: "u-" + h, Password: "s-" + h + "-" + host}, ""
 	case strings.HasPrefix(host, "tok"):
@@ -124,6 +130,8 @@ func runExec(s ExecScript, v *vt.V) {
 			return fmt.Sprintf("%s lookup of %q in %s: entry %+v, want %+v", how, host, b.String(), got, want)
 		case wantErr == "helper-missing" && !errors.Is(err, ociauth.ErrHelperNotFound):
 			return fmt.Sprintf("%s lookup of %q in %s: %+v, %v; want ErrHelperNotFound", how, host, b.String(), got, err)
+		case wantErr == "cannot-start" && (err == nil || errors.Is(err, ociauth.ErrHelperNotFound) || got != (ociauth.ConfigEntry{})):
+			return fmt.Sprintf("%s lookup of %q in %s: %+v, %v; the helper program exists but cannot be started: want an error other than ErrHelperNotFound", how, host, b.String(), got, err)
 		case strings.HasPrefix(wantErr, "boom") && (err == nil || !strings.Contains(err.Error(), wantErr) || got != (ociauth.ConfigEntry{})):
 			return fmt.Sprintf("%s lookup of %q in %s: %+v, %v; want the helper's own failure %q", how, host, b.String(), got, err, wantErr)
 		}
@@ -186,12 +194,12 @@ func runExec(s ExecScript, v *vt.V) {
 var propExec = &vt.Prop[ExecScript]{
 	ID:   "C19",
 	Name: "ExecHelperLookups",
-	Rule: "the config file names credential helpers (credsStore in {none, vfa, vfb, a missing program}, credHelpers for 0-3 of 7 hosts incl. the empty helper and a missing program) and is loaded with the default runner, which executes docker-credential-<name> programs: two shell scripts on PATH that answer as a function of their name and the host (credentials, a token, 'not found', a failure with its own text); 1-6 lookups, first one after the other and then by 1-6 goroutines at once on the same loaded file (documented as safe); oracle = each lookup, alone or among others, gives exactly what the helper that the precedence selects prints for that host (missing default store falls back, missing explicit helper is ErrHelperNotFound); non-trivial = a helper program ran; distinct = the script",
+	Rule: "the config file names credential helpers (credsStore in {none, vfa, vfb, a missing program, a program whose interpreter is missing}, credHelpers for 0-3 of 7 hosts incl. the empty helper and a missing program) and is loaded with the default runner, which executes docker-credential-<name> programs: two shell scripts on PATH that answer as a function of their name and the host (credentials, a token, 'not found', a failure with its own text); 1-6 lookups, first one after the other and then by 1-6 goroutines at once on the same loaded file (documented as safe); oracle = each lookup, alone or among others, gives exactly what the helper that the precedence selects prints for that host (missing default store falls back, missing explicit helper is ErrHelperNotFound); non-trivial = a helper program ran; distinct = the script",
 	Gen: func(t *rapid.T) ExecScript {
 		hosts := []string{"cred1.test", "cred2.test", "cred3.test:5000", "tok1.test", "none1.test", "err1.test", "tok2.test"}
-		s := ExecScript{Store: rapid.SampledFrom([]string{"", "vfa", "vfa", "vfb", "vfmissing"}).Draw(t, "store"), Helpers: map[string]string{}}
+		s := ExecScript{Store: rapid.SampledFrom([]string{"", "vfa", "vfa", "vfb", "vfmissing", "vfbroken"}).Draw(t, "store"), Helpers: map[string]string{}}
 		for n := rapid.IntRange(0, 3).Draw(t, "nhelpers"); n > 0; n-- {
-			s.Helpers[rapid.SampledFrom(hosts).Draw(t, "helperHost")] = rapid.SampledFrom([]string{"vfa", "vfb", "vfb", "", "vfmissing"}).Draw(t, "helper")
+			s.Helpers[rapid.SampledFrom(hosts).Draw(t, "helperHost")] = rapid.SampledFrom([]string{"vfa", "vfb", "vfb", "", "vfmissing", "vfbroken"}).Draw(t, "helper")
 		}
 		s.Lookups = rapid.SliceOfN(rapid.SampledFrom(hosts), 1, 6).Draw(t, "lookups")
 		s.Workers = rapid.SampledFrom([]int{1, 2, 4, 6}).Draw(t, "workers")
